@@ -1,6 +1,8 @@
 //! d_net: transplanted ant-networking sources (record_store.rs, record_store_api.rs,
 //! replication_fetcher.rs, arms of cmd.rs, items of lib.rs/driver.rs) executed under symrt.
 #![allow(dead_code, unused_imports, unused_variables, unused_mut, unused_assignments, clippy::all)]
+// path-qualified uses (`tracing::warn!(..)`) in transplanted code resolve to no-op macros
+extern crate noop_tracing as tracing;
 
 // tracing macros: arguments stay type-checked, nothing is evaluated
 macro_rules! trace { ($($t:tt)*) => { if false { let _ = format!($($t)*); } } }
